@@ -155,7 +155,11 @@ def run_impl(case):
     ds, g, fc = build(case)
     da = mkda(case["dims"], case["vals"])
     bw = {a: tuple(w) for a, w in case["bw"]} if case["bw"] is not None else None
-    order = list(set(_get_all_connection_axes(fc, "face") + list(bw.keys()))) if bw is not None else []
+    order = []
+    if bw is not None:
+        needed = _get_all_connection_axes(fc, "face") + list(bw.keys())
+        order = [a for a in g.axes if a in needed]
+        order += [a for a in dict.fromkeys(needed) if a not in order]
     kwargs = {}
     if case["vector"]:
         data = {case["vector"]: da}
